@@ -12,6 +12,7 @@ from vsc.model.expr_literal_model import ExprLiteralModel
 from vsc.model.field_array_model import FieldArrayModel
 from vsc.model.field_scalar_model import FieldScalarModel
 from vsc.model.model_visitor import ModelVisitor
+from vsc.model.unary_expr_type import UnaryExprType
 from vsc.model.value_scalar import ValueScalar
 from vsc.visitors.expr2field_visitor import Expr2FieldVisitor
 
@@ -26,7 +27,32 @@ class XExprEvaluator(ModelVisitor):
         
     def eval(self, e):
         e.accept(self)
+        if not self.is_x:
+            # The result is only a constant of the constraint if it is 
+            # the value the fixed-width expression would produce
+            w = e.width()
+            if self.val is None or not (
+                self._fits(self.val, w, True) or self._fits(self.val, w, False)):
+                self.is_x = True
+                self.val = None
         return (self.is_x, self.val)
+    
+    @staticmethod
+    def _fits(val, width, signed):
+        v = int(val)
+        width = int(width)
+        if signed:
+            return -(1 << (width-1)) <= v < (1 << (width-1))
+        else:
+            return 0 <= v < (1 << width)
+        
+    def _operands_exact(self, e, lhs_val, rhs_val):
+        """Comparison, division and shift only produce the same result 
+        on unbounded integers as on the fixed-width operands when both 
+        operand values are representable in the operation's domain"""
+        w = max(e.lhs.width(), e.rhs.width())
+        s = e.lhs.is_signed() and e.rhs.is_signed()
+        return self._fits(lhs_val, w, s) and self._fits(rhs_val, w, s)
     
     def visit_expr_bin(self, e:ExprBinModel):
         if self.debug:
@@ -38,6 +64,12 @@ class XExprEvaluator(ModelVisitor):
         e.rhs.accept(self)
         rhs_is_x = self.is_x
         rhs_val = self.val
+        
+        if not (lhs_is_x or rhs_is_x) and e.op in (
+            BinExprType.Eq, BinExprType.Ne, BinExprType.Gt, BinExprType.Ge,
+            BinExprType.Lt, BinExprType.Le, BinExprType.Div, BinExprType.Mod,
+            BinExprType.Sll, BinExprType.Srl) and not self._operands_exact(e, lhs_val, rhs_val):
+            lhs_is_x = True
 
         if e.op == BinExprType.Add:
             if lhs_is_x or rhs_is_x:
@@ -189,7 +221,9 @@ class XExprEvaluator(ModelVisitor):
                 self.is_x = False
                 self.val = ~lhs_val
         else:
-            print("Unhandled op %s" % str(e.op))
+            # Unknown operator: not a constant
+            self.is_x = True
+            self.val = None
 
         if self.debug:            
             print("    result: is_x=%s val=%d" % (str(self.is_x), int(self.val)))
@@ -204,8 +238,46 @@ class XExprEvaluator(ModelVisitor):
             self.is_x = True
             self.val = None
         else:
-            self.is_x = False
-            field.accept(self)
+            # Select the element the (constant) index refers to
+            s.rhs.accept(self)
+            if not self.is_x:
+                idx = int(self.val)
+                if idx >= 0 and idx < len(field.field_l):
+                    field.field_l[idx].accept(self)
+                else:
+                    self.is_x = True
+                    self.val = None
+                    
+    def visit_expr_indexed_fieldref(self, e):
+        e.get_target().accept(self)
+        
+    def visit_expr_cond(self, e):
+        self.is_x = True
+        self.val = None
+        
+    def visit_expr_dynamic(self, e):
+        self.is_x = True
+        self.val = None
+        
+    def visit_expr_unary(self, e):
+        e.expr.accept(self)
+        if not self.is_x:
+            if e.op == UnaryExprType.Not and e.expr.width() == 1:
+                self.val = ValueScalar(0 if int(self.val) != 0 else 1)
+            else:
+                self.is_x = True
+                self.val = None
+                
+    def visit_expr_partselect(self, e):
+        e.lhs.accept(self)
+        if not self.is_x:
+            if self._fits(self.val, e.lhs.width(), e.lhs.is_signed()):
+                upper = int(e.upper.val())
+                lower = int(e.lower.val()) if e.lower is not None else upper
+                self.val = ValueScalar((int(self.val) >> lower) & ((1 << (upper-lower+1))-1))
+            else:
+                self.is_x = True
+                self.val = None
             
     def visit_expr_in(self, e):
         e.lhs.accept(self)
